@@ -835,12 +835,13 @@ func (r *Run) pureInstance(pf *PureFunc) *pureInst {
 		}
 		// provisional instance for recursion
 		r.pureInsts[key] = &pureInst{name: name, heapKeys: heapKeys, retSort: retSort, retT: retT}
+		prevTracker, prevTrackState := r.tracker, r.trackState
 		r.tracker = tracker
 		r.trackState = st
 		savedLines := len(r.lines)
 		body := r.evalNoDef(env, pf.Body)
-		r.tracker = nil
-		r.trackState = nil
+		r.tracker = prevTracker
+		r.trackState = prevTrackState
 		if len(r.lines) != savedLines {
 			// declarations emitted while evaluating (e.g. nested pure functions) are fine; they precede this definition
 		}
